@@ -62,6 +62,24 @@ def replay_with_history(run_case, prog):
     return v
 
 
+LAST_FAULT_CALLS = [0]
+
+
+def crash_cases(prev, cur):
+    """Crash-point enumeration: programs `cur` carrying, as one-step history, the program `prev`
+    interrupted at every one of its injection points (each metric call / matrix access)."""
+    from mc.faults import InjectedFault  # noqa
+    kind, metric, pre = cache_key(prev)
+    m = fresh_model(kind, metric, pre)
+    p0 = dict(prev, fault_at="count")
+    try:
+        fit_program(p0, model=m)
+    except Exception:
+        return
+    for k in range(1, LAST_FAULT_CALLS[0] + 1):
+        yield dict(cur, previous=dict(prev, fault_at=k))
+
+
 def fit_program(prog, fresh=False, model=None):
     """prog: {"model", "mode": "pre"|"features", "W"|("X","metric"), "labels",
     "n_unlabeled"(semi)}.  In mode "pre" nodes are addressed by I_train =
@@ -77,16 +95,25 @@ def fit_program(prog, fresh=False, model=None):
     if model is not None:
         def mk(*a):  # noqa: E306  (the caller supplies the - possibly used - object)
             return model
+    fault = prog.get("fault_at")
     if prog["mode"] == "pre":
         W = np.array(prog["W"], dtype=float)
         m = mk(kind, None, True)
         m.pre_distances = W
+        if fault is not None:
+            from mc.faults import FaultyMatrix
+            m.pre_distances = FaultyMatrix(W, None if fault == "count" else int(fault))
         I = np.array(prog.get("I_train", list(range(nl))), dtype=int)
         X = np.zeros((nl, 1))
-        if kind == "SemiSupervisedOPF":
-            m.fit(X, lab, np.zeros((nu, 1)), I_train=I)
-        else:
-            m.fit(X, lab, I_train=I)
+        try:
+            if kind == "SemiSupervisedOPF":
+                m.fit(X, lab, np.zeros((nu, 1)), I_train=I)
+            else:
+                m.fit(X, lab, I_train=I)
+        finally:
+            if fault is not None:
+                LAST_FAULT_CALLS[0] = m.pre_distances._calls
+                m.pre_distances = W
         idx = [int(i) for i in I] + [nl + i for i in range(nu)]
         Wd = [[float(W[a][b]) for b in idx] for a in idx]
     else:
@@ -96,14 +123,30 @@ def fit_program(prog, fresh=False, model=None):
         if prog.get("labeled_dtype"):
             # the labeled matrix arrives in another dtype (its values are representable in it)
             Xl = Xl.astype(np.dtype(prog["labeled_dtype"]))
+        lay = prog.get("layout")
+        Xu = X[nl:nl + nu].copy()
+        if lay:
+            # the same values handed over in another memory layout (Fortran order, transposed view, strided view)
+            from mc import layout as LY
+            Xl = LY.apply(Xl, lay).astype(Xl.dtype, copy=False) if prog.get("labeled_dtype") else LY.apply(Xl, lay)
+            Xu = LY.apply(Xu, lay) if len(Xu) else Xu
         kw = {}
         if prog.get("I_train") is not None:
             # index arrays may be passed without pre-computed distances too
             kw["I_train"] = np.array(prog["I_train"], dtype=int)
-        if kind == "SemiSupervisedOPF":
-            m.fit(Xl, lab, X[nl:nl + nu].copy(), **kw)
-        else:
-            m.fit(Xl, lab, **kw)
+        orig_fn = m.distance_fn
+        if fault is not None:
+            from mc.faults import FaultyFn
+            m.distance_fn = FaultyFn(orig_fn, None if fault == "count" else int(fault))
+        try:
+            if kind == "SemiSupervisedOPF":
+                m.fit(Xl, lab, Xu, **kw)
+            else:
+                m.fit(Xl, lab, **kw)
+        finally:
+            if fault is not None:
+                LAST_FAULT_CALLS[0] = m.distance_fn.calls
+                m.distance_fn = orig_fn
         fn = m.distance_fn
         n = nl + nu
         Wd = [[float(fn(X[a].copy(), X[b].copy())) if a != b else 0.0 for b in range(n)]
